@@ -221,6 +221,10 @@ def compare(cls, real, model, universe, case):
         diff.append([extra[0]] + L)
         if L:
             diff.append(L[:-1] + [extra[0]])
+    # elements that are no members of the universe, among them values a careless comparison confuses with 'no element'
+    for odd in (None, 0.5):
+        diff.append(L + [odd])
+        diff.append([odd] + L)
     for d in diff:
         for o in (list(d), tuple(d), xtuml.OrderedSet(d)):
             if (real == o) or not (real != o):
